@@ -4,6 +4,7 @@ import CnvVerif.Driver.Call
 import CnvVerif.Driver.SegFilter
 import CnvVerif.Driver.Tile
 import CnvVerif.Driver.Center
+import CnvVerif.Driver.SexExt
 import CnvVerif.Driver.Fix
 import CnvVerif.Driver.Access
 import CnvVerif.Driver.Genes
@@ -20,7 +21,7 @@ import CnvVerif.Driver.Stats
 open Lean CnvVerif.Drv
 
 def handlers : List (String → Json → Option Json → R (Option Json)) :=
-  [handleInterval, handleCall, handleSegFilter, handleTile, handleCenter, handleFix, handleAccess, Genes.handleGenes, handleFormats, handleExport, Reference.handleReference, handleCoverage, handleEffects, handleBins, handleVcf, handleDescriptives, Haar.handleHaar, handleStats]
+  [handleInterval, handleCall, handleSegFilter, handleTile, handleCenter, handleSexExt, handleFix, handleAccess, Genes.handleGenes, handleFormats, handleExport, Reference.handleReference, handleCoverage, handleEffects, handleBins, handleVcf, handleDescriptives, Haar.handleHaar, handleStats]
 
 def dispatch (op : String) (inp : Json) (impl : Option Json) : R Json := do
   for h in handlers do
